@@ -48,9 +48,6 @@ Print Assumptions C18_documented_statuses_concurrent.
 
 (* a request's logging context is the route's base context plus its own identifiers: nothing of any
    earlier request, and nothing accumulates *)
-Lemma log_contexts_private base rs : log_contexts false base rs = map (fun r => base ++ ids_of r) rs.
-Proof. induction rs as [|r t IH]; cbn [log_contexts map]; [reflexivity|]. rewrite IH. reflexivity. Qed.
-
 Theorem C18_logging_context_is_per_request : forall base rs,
   log_contexts logger_shared base rs = map (fun r => base ++ ids_of r) rs.
 Proof. intros base rs. change logger_shared with false. apply log_contexts_private. Qed.
